@@ -33,7 +33,7 @@ RULE = ("pure states: every pair of local dimensions in {2,3,4}^2 x every Schmid
         "vectors / operators (2 and 3 parties, unequal dims) and the same plus 2^-k times a second product (exactly entangled, second "
         "Schmidt coefficient >= 1e-7 relative).  S(k) operator norm / block positivity: a*I + b*|psi><psi| (closed form a + b*sum of k largest "
         "s_i^2), rank-one operators, projectors containing a rank-k vector, random PSD operators against explicit Schmidt-rank-<=k vectors "
-        "(2x2, 2x3; 3x3 in the thorough tier).  non-trivial = Schmidt rank >= 2 or unequal local dimensions (pure), rank >= 2 (mixed), "
+        "(2x2, 2x3, 3x2 with every dim form; three 3x3 cases with list dims in the quick tier; 3x3 and 2x4 in full in the thorough tier).  non-trivial = Schmidt rank >= 2 or unequal local dimensions (pure), rank >= 2 (mixed), "
         ">= 2 parties with a non-identity local rotation; distinct = hash of the exact case description")
 ASSUMPTIONS = [
     "rounding an exact vector/matrix over Q[i] to float64 moves every entry by <= 2^-53 relative; LAPACK svd / eigvals / nuclear norm are accurate to 1e-9*scale on these inputs (sizes <= 16)",
